@@ -74,6 +74,8 @@ def interest(b):
                     locked_at = (s["r"], s["val"])
             if s["type"] == "pc" and k >= 2:
                 score += 2 if s["val"] != "nil" and polka.get(s["r"]) == s["val"] else 1
+                if k == 3 and s["val"] != "nil" and locked_at is not None and s["val"] != locked_at[1]:
+                    score += 4          # the others commit another block than the one the engine may be locked on
             if locked_at is not None and s["r"] < max(polka) and s["type"] == "pv":
                 score += 1              # late prevotes of an earlier round
         elif s["op"] == "block":
